@@ -42,7 +42,7 @@ def auxView (a : List Byte) : Option ((Byte × Byte) × AuxValue) :=
       | [c] => some ((t0, t1), .char c)
       | _ => none
     else if t == 90#8 then some ((t0, t1), .str v)
-    else if t == 72#8 then some ((t0, t1), .hex v)
+    else if t == 72#8 then some ((t0, t1), .hex (hexEnc v))   -- the in-memory payload is the DECODED byte array
     else if t == 66#8 then
       match v with
       | sub :: n0 :: n1 :: n2 :: n3 :: elems =>
